@@ -10,4 +10,5 @@ def bounded(repo, tier, seed):
 replay = pd.replay
 MODES = ['best', 'separate', 'joined', 'all']
 MODESQ = ['best', 'all', 'separate', 'joined']
-PARAMS = [{}, {'p': 2}]
+# (a small pairing distance with a low minimum score yields records of one or two pairs - legal, and where header fields degenerate)
+PARAMS = [{}, {'p': 2}, {}, {'d': 120, 'ms': 500}, {}, {'p': 2}, {'d': 300, 'ms': 500, 'p': 5}]
